@@ -29,11 +29,13 @@ pub fn case(ctx: &Ctx, shard: usize, index: u64, rep: &mut Report) {
         if sorenson {
             (w, h)
         } else {
-            (((w + 3) / 4 * 4).max(4), ((h + 3) / 4 * 4).max(4))
+            (((w + 3) / 4 * 4).clamp(4, 2048), ((h + 3) / 4 * 4).clamp(4, 1152))
         }
     };
-    let (mut w, mut h) = pick_size(&mut rng);
-    let n = 2 + rng.below(7) as usize;
+    let long = rng.chance(1, 300);
+    let (mut w, mut h) = if long { (16, 16) } else { pick_size(&mut rng) };
+    // a few very long streams in one reader (buffer growth, counters, thousands of bytes consumed)
+    let n = if long { 260 + rng.below(400) as usize } else { 2 + rng.below(7) as usize };
     let mut pics: Vec<(Vec<u8>, usize, char)> = vec![]; // (padded bytes, bits of data before padding, kind)
     let mut have_ref = false;
     let mut tr = rng.byte();
@@ -46,7 +48,7 @@ pub fn case(ctx: &Ctx, shard: usize, index: u64, rep: &mut Report) {
             let ic = InterCfg { ptype: if disp { 2 } else { 0 }, big_vectors_pct: 30, residual_pct: 50, truncate: None, allow_q: true };
             (gen_inter(&mut rng, &cfg, &ic), if disp { 'D' } else { 'P' })
         } else {
-            if have_ref && rng.chance(1, 3) {
+            if have_ref && !long && rng.chance(1, 3) {
                 // size change is legal at an I picture
                 let s = pick_size(&mut rng);
                 w = s.0;
@@ -112,7 +114,7 @@ pub fn case(ctx: &Ctx, shard: usize, index: u64, rep: &mut Report) {
         start += bytes.len() * 8;
         decoded += 1;
     }
-    rep.count(&format!("len={}", n));
+    rep.count(&format!("len={}", if long { "long".to_string() } else { n.to_string() }));
     rep.count(if sorenson { "mode=sorenson" } else { "mode=standard" });
     rep.count("sequences_completed");
     if decoded >= 2 {
